@@ -8,6 +8,8 @@
      [1, kids, mins, maxs, pmaps, form]  CartesianProduct rule (max -1 = None)
      [2, tbl]                            verification rule, tbl[n] = strategy.get_objects(class, n)
      [3, m, o]                           AtomStrategy: the object o of size m
+     [3, m, o, params]                   a verification rule of a class with ONE object o, of size m, filed under
+                                         the parameter tuple params ([3, m, o] = no parameters)
      [4]                                 EmptyStrategy
    pmap   = [0|1, child_pos_to_parent_pos, num_parent_params]   (0: Constructor.param_map,
                                                                   1: DisjointUnion.param_map)
@@ -158,7 +160,7 @@ Definition dec_rule (s : sx) : rule Z * mform :=
   | 2 => let tbl := map dec_dict (sx_list (sx_nth s 1)) in
          (RVerified (fun n => if n <? 0 then [] else nth (Z.to_nat n) tbl []), FPath [])
   | 3 => let m := sx_Z (sx_nth s 1) in let o := sx_Z (sx_nth s 2) in
-         (RVerified (fun n => if n =? m then [([], [o])] else []), FPath [])
+         (RVerified (fun n => if n =? m then [(sx_Zs (sx_nth s 3), [o])] else []), FPath [])
   | _ => (RVerified (fun _ => []), FPath [])
   end.
 
